@@ -18,10 +18,10 @@ from .tlc import MachineryError, validate_trace
 
 FAM_QUICK = [("mlines", 3, 8, range(0, 4)), ("mmultilines", 3, 64, range(0, 6)), ("mrings", 3, 8, range(0, 4)),
              ("mpoly2", 5, 32, range(0, 4)), ("mmulti", 3, 512, range(0, 4)), ("mmulti2", 5, 8, range(0, 2)), ("mpoints", 3, 4, range(0, 1)),
-             ("holed", 5, 16, range(0, 2))]
+             ("holed", 5, 16, range(0, 2)), ("mdegshell", 5, 4, range(0, 2))]
 FAM_THOROUGH = [("mlines", 3, 8, None), ("mmultilines", 3, 16, None), ("mrings", 3, 8, None), ("mpoly2", 5, 16, None),
                 ("mpoly3", 5, 8, None), ("mmulti", 3, 64, range(0, 16)), ("mmulti2", 5, 8, None), ("mpoints", 3, 2, None),
-                ("holed", 5, 8, None), ("polygon", 3, 8, None)]
+                ("holed", 5, 8, None), ("polygon", 3, 8, None), ("mdegshell", 5, 4, None)]
 
 # isotropic exact images (length scales by s, area by s^2); two of them are pure translations
 IMAGES = [geom.IDENT, geom.Affine(1.0, -7.0, 1.0, 11.0, name="translate"), geom.Affine(0.25, 3.0, 0.25, -5.0, name="quarter"),
